@@ -32,7 +32,7 @@ impl Adapter for RateLimiterAd {
         let l = 1 + rng.below(if size == Size::Quick { 3 } else { 5 });
         let p = *rng.pick(&[3u64, 4, 5, 8]);
         let t = *rng.pick(&[0u64, 1, 2, p - 1, p, p + 1, 2 * p, 2 * p + 1, 4 * p]);
-        json!({"hm": rng.below(4), "win": win, "L": l, "P": p, "T": t, "slow": if rng.pct(35) { 1 } else { 0 }})
+        json!({"hm": rng.below(4), "win": win, "L": l, "P": p, "T": t, "slow": if rng.pct(35) { 1 } else { 0 }, "base": if rng.pct(40) { 1 + rng.below(3) } else { 0 }, "ord": rng.below(3)})
     }
     fn build(&mut self, cfg: &Value, sim: &mut Sim) {
         // slow = 1: admitted calls stay inside the inner service until the environment resolves them (or the caller is
@@ -45,12 +45,19 @@ impl Adapter for RateLimiterAd {
             "log" => WindowType::SlidingLog,
             _ => WindowType::SlidingCounter,
         };
-        let layer = RateLimiterLayer::builder()
-            .limit_for_period(cfg["L"].as_u64().unwrap() as usize)
-            .refresh_period(Duration::from_millis(cfg["P"].as_u64().unwrap()))
-            .timeout_duration(Duration::from_millis(cfg["T"].as_u64().unwrap()))
-            .window_type(wt)
-            .build();
+        // cfg.base: start from a preset (all of its settings are overridden); cfg.ord: option order
+        let b = match cfg["base"].as_u64().unwrap_or(0) {
+            1 => RateLimiterLayer::per_second(7),
+            2 => RateLimiterLayer::per_minute(9),
+            3 => RateLimiterLayer::burst(5, 3),
+            _ => RateLimiterLayer::builder(),
+        };
+        let (l, p, t) = (cfg["L"].as_u64().unwrap() as usize, Duration::from_millis(cfg["P"].as_u64().unwrap()), Duration::from_millis(cfg["T"].as_u64().unwrap()));
+        let layer = match cfg["ord"].as_u64().unwrap_or(0) {
+            1 => b.window_type(wt).timeout_duration(t).refresh_period(p).limit_for_period(l).build(),
+            2 => b.timeout_duration(t).limit_for_period(l).window_type(wt).refresh_period(p).name("rl").build(),
+            _ => b.limit_for_period(l).refresh_period(p).timeout_duration(t).window_type(wt).build(),
+        };
         self.svc = Some(Handles::new(layer.layer(Inner::new(&sim.w)), cfg["hm"].as_u64().unwrap_or(0)));
     }
     fn mk(&mut self, req: &Req) -> CallFut {
